@@ -323,15 +323,17 @@ def run(ctx: Check) -> int:
             ("stop", 3, ["hold"]), ("block", 4, ["cancel"]), ("watch", 4, ["force"]), ("cmds", 3, ["inject-cmd"]),
             ("long", 4, ["cancel"]), ("long", 4, ["edit"])]
     two = [("cmds", 5, ["edit", "cmdb"]), ("block", 4, ["cancel", "inject-mark"]), ("pause", 5, ["pause", "edit"])]
+    extra: list = []
     if thorough:
-        # all interleavings for every method x every request at warm-up 1/3/5, three methods also at 2/4/6
-        full += [(p, w, [r]) for p in PROGRAMS for w in (1, 3, 5) for r in REQUESTS]
-        full += [(p, w, [r]) for p in ("cmds", "stop", "restart") for w in (2, 4, 6) for r in REQUESTS]
-        two += [("watch", 4, ["force", "hold"]), ("stop", 3, ["stop", "edit"]), ("restart", 3, ["inject-cmd", "cancel"]),
-                ("cmds", 2, ["cmdb", "cmdb"]), ("block", 3, ["edit", "edit"]), ("cmds", 4, ["inject-cmd", "edit"]),
-                ("pause", 4, ["hold", "pause"]), ("watch", 3, ["edit", "force"]), ("stop", 2, ["cmdb", "stop"]),
-                ("restart", 4, ["edit", "inject-mark"]), ("block", 5, ["cancel", "cancel"]),
-                ("cmds", 6, ["stop", "cmdb"]), ("pause", 6, ["edit", "inject-cmd"])]
+        # all interleavings for every method x every request at warm-up 1/3/5, three methods also at 2/4/6, then more
+        # two-request combos; explored in this order as far as the time guard below allows
+        extra += [(p, w, [r]) for p in PROGRAMS for w in (1, 3, 5) for r in REQUESTS]
+        extra += [(p, w, [r]) for p in ("cmds", "stop", "restart") for w in (2, 4, 6) for r in REQUESTS]
+        extra += [("watch", 4, ["force", "hold"]), ("stop", 3, ["stop", "edit"]), ("restart", 3, ["inject-cmd", "cancel"]),
+                  ("cmds", 2, ["cmdb", "cmdb"]), ("block", 3, ["edit", "edit"]), ("cmds", 4, ["inject-cmd", "edit"]),
+                  ("pause", 4, ["hold", "pause"]), ("watch", 3, ["edit", "force"]), ("stop", 2, ["cmdb", "stop"]),
+                  ("restart", 4, ["edit", "inject-mark"]), ("block", 5, ["cancel", "cancel"]),
+                  ("cmds", 6, ["stop", "cmdb"]), ("pause", 6, ["edit", "inject-cmd"])]
     per_combo_limit = ctx.n(50, 6000)
     # the all-interleavings part stops taking up new combos after this much wall time, so that a tree on which the
     # entry points do not block (many more interleavings per combo) still finishes within the tier's budget
@@ -340,7 +342,7 @@ def run(ctx: Check) -> int:
     n_full = 0
     skipped = 0
     seen_combo: set[str] = set()
-    for (prog, warm, reqs) in two + full:
+    for (prog, warm, reqs) in full + two + extra:
         ck = json.dumps([prog, warm, reqs])
         if ck in seen_combo:
             continue
